@@ -23,4 +23,15 @@ for path in sorted(glob.glob(os.path.join(repo, "anytree", "**", "*.py"), recurs
 with open(renames.PINNED_FILE, "w", encoding="utf-8") as fh:
     json.dump(out, fh, indent=1, sort_keys=True)
     fh.write("\n")
+from sa import newoptions  # noqa: E402
+sigs = {}
+for path in sorted(glob.glob(os.path.join(repo, "anytree", "**", "*.py"), recursive=True)):
+    rel = os.path.relpath(path, repo)
+    rec = newoptions.record_signatures(ast.parse(open(path, encoding="utf-8").read()))
+    if rec:
+        sigs[rel] = rec
+with open(newoptions.SIG_FILE, "w", encoding="utf-8") as fh:
+    json.dump(sigs, fh, indent=1, sort_keys=True)
+    fh.write("\n")
+print("recorded %d signatures in %d modules" % (sum(len(v) for v in sigs.values()), len(sigs)))
 print("recorded %d private functions in %d modules" % (sum(len(v2) for v in out.values() for v2 in v.values()), len(out)))
